@@ -49,17 +49,34 @@ fn circles() -> (DatumCircle, DatumCircle) {
 }
 
 /// F10: an analysis error at a non-first priority level changes which level is returned.
+/// (Until the fix for F22 the shortest instance was a pair of concentric tangent circles, whose NaN
+/// derivatives made the SVD fail; this one - a collapsed guess, five levels - makes faer's SVD fail to
+/// converge at a later level: `solve` returns level 12, `solve_analysis` an earlier one.)
 fn f10() -> bool {
-    let (ca, cb) = circles();
-    let reqs = [
-        ConstraintRequest::new(Constraint::Fixed(6, 1.0), 0),
-        ConstraintRequest::new(Constraint::CircleTangentToCircle(ca, cb), 1),
+    let reqs: Vec<ConstraintRequest> = [
+        "20 PointArcCoincident 10 11 6 7 8 9 12 13",
+        "4 VerticalPointLineDistance 0 1 0 1 4 5 0",
+        "6 PointLineDistance 0 1 0 1 4 5 0",
+        "14 LinesAtAngleDeg 14 15 12 13 10 11 16 17 13870825754706922195",
+        "12 LinesAtAngleParallel 0 1 12 13 2 3 14 15",
+    ]
+    .iter()
+    .filter_map(|r| {
+        let (p, c) = r.split_once(' ')?;
+        Some(ConstraintRequest::new(ezpz_verif_harness::codec::dec_constraint(c)?, p.parse().ok()?))
+    })
+    .collect();
+    let bits: [u64; 18] = [
+        4596371962284654208, 4596371962284654208, 4601779162305024139, 13830560512475089743, 4596371962284654208, 4596371962284654208,
+        4600400251505121730, 4596371962284654208, 4605963336954590201, 4596371962284654208, 4596371962284654208, 4605180948532430960,
+        4596371962284654208, 4596371962284654208, 13828522267008431538, 4596371962284654208, 4606204270617091733, 13828145726428611133,
     ];
-    let g = guesses(&[1.0, 1.0, 1.0, 1.0, 2.0, 2.0, 1.0]);
+    let g: Vec<(u32, f64)> = bits.iter().enumerate().map(|(i, b)| (i as u32, f64::from_bits(*b))).collect();
+    if reqs.len() != 5 { return false; }
     let a = solve(&reqs, g.clone(), Config::default());
     let b = solve_analysis(&reqs, g, Config::default());
     match (a, b) {
-        (Ok(a), Ok(b)) => a.priority_solved() == 1 && b.outcome.priority_solved() == 0,
+        (Ok(a), Ok(b)) => b.outcome.priority_solved() < a.priority_solved(),
         _ => false,
     }
 }
@@ -179,6 +196,59 @@ fn f17() -> bool {
     a.is_ok() && b.is_ok() && matches!(u, Err(e) if matches!(e.error, NonLinearSystemError::DidNotConverge))
 }
 
+/// F23: the recorded union (findings/F23-*.json): the whole list fails, a variable-connected part of
+/// it fails on its own as well, and the list without the requests of the failing parts solves.
+fn f23() -> bool {
+    let path = concat!(env!("CARGO_MANIFEST_DIR"), "/../findings/F23-a-part-of-a-group-fails-alone.json");
+    let Ok(text) = std::fs::read_to_string(path) else { return false };
+    let grab = |key: &str| -> Vec<String> {
+        let Some(i) = text.find(&format!("\"{key}\": [")) else { return vec![] };
+        let rest = &text[i..];
+        let end = rest.find(']').unwrap_or(rest.len());
+        rest[..end].split('"').enumerate().filter(|(k, _)| k % 2 == 1).map(|(_, s)| s.to_string()).skip(1).collect()
+    };
+    let reqs: Vec<ConstraintRequest> = grab("requests")
+        .iter()
+        .filter_map(|r| {
+            let (p, c) = r.split_once(' ')?;
+            Some(ConstraintRequest::new(ezpz_verif_harness::codec::dec_constraint(c)?, p.parse().ok()?))
+        })
+        .collect();
+    let mut gs: Vec<(u32, f64)> = Vec::new();
+    if let Some(i) = text.find("\"guesses\": [") {
+        let rest = &text[i + 12..];
+        let toks: Vec<&str> = rest.split(|c: char| c == '[' || c == ']' || c == ',' || c.is_whitespace()).filter(|t| !t.is_empty()).collect();
+        let mut k = 0;
+        while k + 2 < toks.len() {
+            let (Ok(id), Some(bits)) = (toks[k].parse::<u32>(), toks[k + 1].trim_matches('"').parse::<u64>().ok()) else { break };
+            gs.push((id, f64::from_bits(bits)));
+            k += 3;
+        }
+    }
+    if reqs.is_empty() || gs.is_empty() { return false; }
+    let n = gs.len();
+    let whole_fails = solve(&reqs, gs.clone(), Config::default()).is_err();
+    let mut parent: Vec<usize> = (0..n).collect();
+    fn find(p: &mut Vec<usize>, i: usize) -> usize { if p[i] != i { let r = find(p, p[i]); p[i] = r; } p[i] }
+    for r in &reqs {
+        let ids: Vec<usize> = kcl_ezpz::verif_hooks::nonzeroes(r.constraint()).iter().flatten().map(|i| *i as usize).filter(|i| *i < n).collect();
+        for w in ids.windows(2) { let (a, b) = (find(&mut parent, w[0]), find(&mut parent, w[1])); parent[a] = b; }
+    }
+    let root_of = |r: &ConstraintRequest, parent: &mut Vec<usize>| -> Option<usize> {
+        kcl_ezpz::verif_hooks::nonzeroes(r.constraint()).iter().flatten().map(|i| *i as usize).find(|i| *i < n).map(|i| find(parent, i))
+    };
+    let mut roots: Vec<usize> = reqs.iter().filter_map(|r| root_of(r, &mut parent)).collect();
+    roots.sort(); roots.dedup();
+    let mut failing_roots = Vec::new();
+    for root in &roots {
+        let part: Vec<ConstraintRequest> = reqs.iter().filter(|r| root_of(r, &mut parent) == Some(*root)).copied().collect();
+        if solve(&part, gs.clone(), Config::default()).is_err() { failing_roots.push(*root); }
+    }
+    let rest: Vec<ConstraintRequest> = reqs.iter().filter(|r| !failing_roots.contains(&root_of(r, &mut parent).unwrap_or(usize::MAX))).copied().collect();
+    let rest_ok = solve(&rest, gs.clone(), Config::default()).is_ok();
+    whole_fails && !failing_roots.is_empty() && rest_ok
+}
+
 fn main() {
     let args: Vec<String> = std::env::args().collect();
     std::panic::set_hook(Box::new(|_| {}));
@@ -217,11 +287,26 @@ fn main() {
         let r = solve(&reqs, guesses.clone(), Config::default());
         for e in kcl_ezpz::verif_hooks::trace_take() {
             match e {
-                kcl_ezpz::verif_hooks::TraceEvent::Iter { iteration, r, .. } => {
+                kcl_ezpz::verif_hooks::TraceEvent::Iter { iteration, r, x, .. } => {
                     println!("  round {iteration}: largest error {:.3e}", r.iter().fold(0.0f64, |a, v| a.max(v.abs())));
+                    // which requests have a non-finite error or derivative at this configuration
+                    for (idx, q) in reqs.iter().enumerate() {
+                        let inb = kcl_ezpz::verif_hooks::nonzeroes(q.constraint()).iter().flatten().all(|i| (*i as usize) < x.len());
+                        if !inb { continue; }
+                        let (res, _) = kcl_ezpz::verif_hooks::residual(q.constraint(), &x);
+                        let (rows, _) = kcl_ezpz::verif_hooks::jacobian_rows(q.constraint(), &x);
+                        if res.iter().any(|v| !v.is_finite()) || rows.iter().flatten().any(|e| !e.1.is_finite()) {
+                            println!("           request {idx} ({}) is not finite here: error {:?}, derivatives {:?}", q.constraint().constraint_kind(), res, rows);
+                        }
+                    }
                 }
                 kcl_ezpz::verif_hooks::TraceEvent::Step { d, .. } => {
-                    println!("           step norm {:.3e}", d.iter().fold(0.0f64, |a, v| a.max(v.abs())));
+                    let nf: Vec<usize> = d.iter().enumerate().filter(|(_, v)| !v.is_finite()).map(|(i, _)| i).collect();
+                    if nf.is_empty() {
+                        println!("           step norm {:.3e}", d.iter().fold(0.0f64, |a, v| a.max(v.abs())));
+                    } else {
+                        println!("           step has non-finite components for variables {:?}", nf);
+                    }
                 }
                 _ => {}
             }
@@ -275,6 +360,7 @@ fn main() {
             "F15-underdetermined-lands-farther-than-1.5x" => f15(),
             "F16-null-space-drift-on-inconsistent-rank-deficient" => f16(),
             "F17-union-exhausts-iterations-beside-an-inconsistent-part" => f17(),
+            "F23-a-part-of-a-group-fails-alone" => f23(),
             other => {
                 println!("UNKNOWN-FINDING {other}");
                 std::process::exit(2);
